@@ -250,10 +250,56 @@ def str_is(chars, text):
     return z_and([char_eq(c, SInt(ord(t), "char")) for c, t in zip(chars, text)])
 
 
-def py_tokenize_reference(lines):
-    """what 'accounted for' means on a concrete document, for judging native replays: count lines that a
-    correct tokenizer attributes to some token = all of them"""
-    return len(lines)
+def ref_fence(line):
+    """reference fence classifier on a concrete line → (ticks, language) | None | 'unspecified'"""
+    k = len(line) - len(line.lstrip("`"))
+    if k < 3:
+        return None
+    rest = line[k:]
+    if "`" in rest:
+        return "unspecified"
+    info = rest.split("{", 1)[0] if "{" in rest else rest
+    return ("`" * k, info.rstrip())
+
+
+def ref_tokens(lines, languages):
+    """reference tokenization of a concrete document → 'kind:count kind:count ..' (the shape the native hook reports),
+    or None when the document contains a line whose classification the claim leaves open"""
+    out = []
+    i = 0
+    n = len(lines)
+    content = False
+    while i < n:
+        line = lines[i]
+        if not content and line == "---":
+            j = i + 1
+            while j < n and lines[j] != "---":
+                j += 1
+            cnt = (j - i + 1) if j < n else (j - i)
+            out.append("config:%d" % (j - i - 1 + 2))
+            i = j + 1 if j < n else n
+            continue
+        f = ref_fence(line)
+        if f == "unspecified":
+            return None
+        if f is not None:
+            content = True
+            ticks, lang = f
+            j = i + 1
+            while j < n and not lines[j].startswith(ticks):
+                j += 1
+            if lang in languages:
+                body = j - (i + 1)
+                out.append("test:%d" % (body + 2))
+            else:
+                out.append("verbatim:%d" % ((j - i + 1) if j < n else (j - i)))
+            i = j + 1 if j < n else n
+            continue
+        if line.strip() != "":
+            content = True
+        out.append("line:1")
+        i += 1
+    return " ".join(out)
 
 
 def h_tokenizer(max_lines, max_len):
@@ -271,6 +317,10 @@ def h_tokenizer(max_lines, max_len):
             return True, ("document %r: tokens account for %d of %d lines (%s)"
                           % ("\n".join(doc), nv["accounted"], len(doc), nv["shape"])), \
                 "tokenizer:lines-dropped:" + nv["why"]
+        want = ref_tokens(doc, ["s"])
+        if want is not None and want != nv["shape"]:
+            return True, ("document %r is tokenized as [%s] but its blocks are [%s]: a block is ended at the wrong line"
+                          % ("\n".join(doc), nv["shape"], want)), "tokenizer:block-extent"
         return False, "", ""
     inputs = []
     for k in range(0, max_lines + 1):
@@ -304,6 +354,17 @@ def run(pid, tier):
     vald = [[Slice([e2.concrete_str(l) for l in d])] for d in docs]
     e2.process(rep, prog, NAT, h_tokenizer(K, L), tier, validate_inputs=[],
                to_native_args=lambda a: [a[0], ["s"]])
+    # the reference tokenization used to judge replays must agree with the native tokenizer on the unchanged claim
+    checked = bad = 0
+    for d in docs + [[rnd.choice(["```s", "```", "````", "---", "# c", "$ a", "a", "", "```x", "``", "```s{a}"]) for _ in range(rnd.randint(0, 5))] for _ in range(60)]:
+        want = ref_tokens(d, ["s"])
+        nk, nv = NAT.call("markdown_tokens", [d, ["s"]])
+        checked += 1
+        if want is not None and (nk != "return" or nv["shape"] != want):
+            bad += 1
+            if bad <= 3:
+                rep.mismatches.append("reference tokenization of %r is [%s] but the native tokenizer says %s" % (d, want, nv))
+    rep.subclaims[-1]["concrete_validation"] = {"inputs": checked, "mismatches": bad, "function": "reference tokenization vs native MarkdownIterator"}
     NAT.close()
     tot_paths = sum(s.get("paths", 0) for s in rep.subclaims)
     rep.coverage.update({
